@@ -364,9 +364,9 @@ PROPS["C13"] = dict(
         dict(name="asan-hsw", src="mutation_harness.cpp", cfg="asan-hsw", env=ASAN_ENV, args=["--prop", "C13"]),
         # ParseSchema histories (valid texts, 1..4 applications, Swap/move hand-over, destruction) on the ledger allocator
         dict(name="schema-ledger", src="schema_harness.cpp", cfg="asan-hsw", env=ASAN_ENV,
-             args=["--prop", "C13", "--streams", "kind_matrix_ledger,generated_pairs_ledger"]),
+             args=["--prop", "C13", "--streams", "kind_matrix_ledger,generated_pairs_ledger,invalid_text_pool,invalid_text_ledger"]),
     ],
-    require=["operations-checked", "op:document-move", "op:document-swap", "op:Parse(valid)", "op:Parse(invalid)", "op:ParseOnDemand",
+    require=["ParseSchema-on-invalid-text", "invalid-text:rejected", "operations-checked", "op:document-move", "op:document-swap", "op:Parse(valid)", "op:Parse(invalid)", "op:ParseOnDemand",
              "copy-independence-checks", "ledger-quiescent-checks", "destruction-at-random-step", "op:CreateMap", "op:CopyFrom",
              "handover(Swap/move)-then-destroy-former-holder", "repeated-applications(2..4 texts)",
              "lazy-merge-on-ledger-allocator", "lazy-merge:escaped-keys"],
